@@ -24,6 +24,7 @@ API (everything else in this file is private)
     ctl.complete(label)               # run the parked body, deliver its result, run
                                       #   every callback / loop step this enables
     ctl.outcome()                     # ("pending",None) | ("ok",value) | ("raised",exc)
+    ctl.first_outcome()               # the same, as it was when the result completed (None if never)
     ctl.leftover()                    # futures / tasks created during the run that
                                       #   are still not done
     ctl.swallowed                     # exceptions raised inside future callbacks /
@@ -56,7 +57,12 @@ API (everything else in this file is private)
                                       #   random schedules are added instead. stop(result) -> True
                                       #   ends the exploration early (e.g. after a hang).
     watchdog(seconds=TIMEOUT[0])      # context manager raising Hang in the main thread
-                                      #   (a `.result()` on a pending future would block forever)
+                                      #   (a `.result()` on a pending future would block forever);
+                                      #   TIMEOUT is generous (loaded machine); confirm a hang by
+                                      #   re-running before reporting it, then call hang_seen()
+                                      #   (see props/c08.py _explore)
+  A worked driver (schema, resolvers that log through the controller, the four
+  configurations) is harness/sched_prog.py.
 
 Labels must be JSON-able after `list(...)` conversion and sortable; the ones
 used by C08/C09 are `(path_tuple, level)`.
